@@ -314,6 +314,7 @@ class LowerToIRVisitor(Visitor.DefaultVisitor):
         breakContinueInstructions = ctx.EndLoop()
 
         # Conditional jump back to start or to end
+        conditionBB = ctx.CreateBasicBlock()
         condition = self.v_Visit(expr.GetCondition(), ctx)
         branch = LinearIR.BranchInstruction(startBB, None, condition)
         ctx.BasicBlock.AddInstruction(branch)
@@ -322,7 +323,7 @@ class LowerToIRVisitor(Visitor.DefaultVisitor):
         branch.SetFalseBlock(endBB)
 
         breakContinueInstructions.SetBreakTarget(endBB)
-        breakContinueInstructions.SetContinueTarget(startBB)
+        breakContinueInstructions.SetContinueTarget(conditionBB)
 
     def v_WhileStatement(self, expr: ast.WhileStatement, ctx: Context):
         # We lower this as following
